@@ -21,6 +21,8 @@ const (
 	stPrintfStr
 	stPrintRedactable
 	stPrintUnsafe
+	stFprintf // redact.Fprintf on the printer itself (as an io.Writer)
+	stFprint
 	nScriptSteps
 )
 
@@ -45,6 +47,10 @@ func runScript(w redact.SafePrinter, steps []int, s string) {
 			w.Print(redact.RedactableString("p‹q›"))
 		case stPrintUnsafe:
 			w.Print(redact.Unsafe(redact.SafeString(s)))
+		case stFprintf:
+			redact.Fprintf(w, "f%sf %d", s, 3)
+		case stFprint:
+			redact.Fprint(w, s, redact.Safe("g"))
 		}
 	}
 }
@@ -125,13 +131,19 @@ func H_c06(p []int) {
 		return
 	}
 	de := delEnv(out)
+	// the blank leaf renders as nothing under every verb except %T (its
+	// type has a name): the blanked references use %v there
+	d0 := d
+	if d == "%T" {
+		d0 = "%v"
+	}
 	if kind < 100 {
 		f := catchFmt(func() string { return fmt.Sprintf("a‹ "+d+" b %v", mkValue(kind, s, 42), "T") })
 		if f.panicked {
 			return
 		}
 		vAssert(bytesEq(strip(out), esc([]byte(f.out))), "C06/characters-as-fmt")
-		f0 := catchFmt(func() string { return fmt.Sprintf("a‹ "+d+" b %v", blankLeaf{}, blankS("")) })
+		f0 := catchFmt(func() string { return fmt.Sprintf("a‹ "+d0+" b %v", blankLeaf{}, blankS("")) })
 		if outerUnsafe {
 			vAssert(bytesEq(de, esc([]byte(f0.out))), "C06/unsafe-envelopes-all")
 		} else {
@@ -141,7 +153,7 @@ func H_c06(p []int) {
 		}
 	} else if outerUnsafe {
 		// redact-specific x under Unsafe: nothing of x outside envelopes
-		f0 := catchFmt(func() string { return fmt.Sprintf("a‹ "+d+" b %v", blankLeaf{}, blankS("")) })
+		f0 := catchFmt(func() string { return fmt.Sprintf("a‹ "+d0+" b %v", blankLeaf{}, blankS("")) })
 		vAssert(bytesEq(de, esc([]byte(f0.out))), "C06/unsafe-envelopes-all")
 	}
 	vCover(n > 0 && outerUnsafe, "symbolic-under-unsafe")
@@ -188,7 +200,7 @@ func H_c06s(p []int) {
 	}
 	hasRedactable := false
 	for _, st := range steps {
-		if st == stPrintRedactable {
+		if st == stPrintRedactable || st == stFprintf || st == stFprint {
 			hasRedactable = true // a redactable keeps its own envelopes under Safe(): it has a classification of its own
 		}
 	}
